@@ -545,6 +545,22 @@ func c18Run(c *Ctx) {
 			g3.EntrySpell = spAbsDetour
 			b3 := g3.build()
 			run(&elemCase{expCase: expCase{built: *b3, Spec: g3}, Calls: []call{{Fn: "ExpandSpec"}}})
+			// the same with a reference to a whole document (no pointer to trip over afterwards)
+			if g.N == 2 && g.Place[1] != 0 {
+				g4 := g.clone()
+				g4.Shape[1] = 3
+				b4 := g4.build()
+				whole := []string{g4.nodeDocURL(1)}
+				for _, kind := range []string{"mem", "lib"} {
+					for _, e := range schemas {
+						cl := call{Fn: "ExpandSchemaWithBasePath", Elem: e}
+						ec := &elemCase{expCase: expCase{built: *b4, Spec: g4, FailLoads: whole}, Calls: []call{cl, cl, cl}, CacheKind: kind, ExpectErr: true}
+						if _, ok := ptrGet(mustParse(string(b4.Docs[b4.Root])), e); ok && dependsOnAny(ec.universe(), vertex{Loc{b4.Root, e}, KSchema}, whole) {
+							run(ec)
+						}
+					}
+				}
+			}
 			// a refused document and a reused cache: the failure must be reported every time
 			for _, kind := range []string{"mem", "lib"} {
 				for _, e := range schemas {
